@@ -18,7 +18,7 @@ def PlainDirs (fs : Fs) : CPath → List Name → Prop
 /-- `path` is a plain path whose parent chain consists of real directories; its last component `n` (at
     canonical path `d`) may be anything: missing, file, link or directory -/
 def PlainParent (fs : Fs) (path : Bytes) (d : CPath) : Prop :=
-  path ≠ [] ∧ ∃ cs n, chunks path = cs ++ [n] ∧ PlainDirs fs (start0 path) cs ∧ n ≠ [46] ∧ n ≠ dotdot ∧
+  path ≠ [] ∧ ∃ cs n, kchunks path = cs ++ [n] ∧ PlainDirs fs (start0 path) cs ∧ n ≠ [46] ∧ n ≠ dotdot ∧
     d = start0 path ++ cs ++ [n]
 
 def Sub (fs' fs : Fs) : Prop := ∀ x, x ∈ fs'.ents → x ∈ fs.ents
@@ -167,19 +167,19 @@ theorem readdir_plain (fs : Fs) (path : Bytes) (d : CPath) (h : PlainParent fs p
 
 /-- the path string Directory::unlink builds for an entry of a plain directory is plain again -/
 theorem plainParent_child (fs : Fs) (dir : Bytes) (d : CPath) (n : Name) (h : PlainParent fs dir d)
-    (hg : fs.get d = some .dir) (hn : IsName n) : PlainParent fs (dir ++ [47] ++ n) (d ++ [n]) := by
+    (hg : fs.get d = some .dir) (hn : KName n) : PlainParent fs (dir ++ [47] ++ n) (d ++ [n]) := by
   obtain ⟨hne, cs, n0, hch, hpl, hn1, hn2, hd⟩ := h
   have hst : start0 (dir ++ [47] ++ n) = start0 dir := by
     unfold start0
     rw [List.append_assoc, startsWith47_append dir _ hne]
   refine ⟨by simp, cs ++ [n0], n, ?_, ?_, hn.2.2.1, hn.2.2.2, ?_⟩
-  · rw [List.append_assoc, List.singleton_append, chunks_append_sep dir 47 n (by decide), hch,
-      chunks_of_sepfree n hn.1 hn.2.1]
+  · rw [List.append_assoc, List.singleton_append, kchunks_append_sep dir 47 n (by decide), hch,
+      kchunks_of_sepfree n hn.1 hn.2.1]
   · rw [hst]
     exact plainDirs_snoc fs cs _ n0 hpl hn1 hn2 (by rw [← hd]; exact hg)
   · rw [hst, hd]; simp [List.append_assoc]
 
-theorem children_names (fs : Fs) (hok : NamesOk fs) (d : CPath) : ∀ x ∈ fs.children d, IsName x.1 := by
+theorem children_names (fs : Fs) (hok : NamesOk fs) (d : CPath) : ∀ x ∈ fs.children d, KName x.1 := by
   intro x hx
   simp only [Fs.children, List.mem_filterMap] at hx
   obtain ⟨y, hy, hyx⟩ := hx
@@ -277,7 +277,7 @@ theorem fileUnlink_plain_frame (fs : Fs) (path : Bytes) (d : CPath) (h : PlainPa
 theorem unlinkEntries_frame (rec : Fs → Bytes → Fs × Bool)
     (hrec : ∀ fs path d, NamesOk fs → PlainParent fs path d → Frame d fs (rec fs path).1)
     (dir : Bytes) (d : CPath) :
-    ∀ (ents : List (Name × Entry)) (fs : Fs), (∀ x ∈ ents, IsName x.1) → NamesOk fs → PlainParent fs dir d →
+    ∀ (ents : List (Name × Entry)) (fs : Fs), (∀ x ∈ ents, KName x.1) → NamesOk fs → PlainParent fs dir d →
       fs.get d = some .dir →
       Sub (unlinkEntries rec (dir ++ [47]) fs ents).1 fs ∧
       ∀ q, NotInside d q → (unlinkEntries rec (dir ++ [47]) fs ents).1.get q = fs.get q := by
@@ -287,8 +287,8 @@ theorem unlinkEntries_frame (rec : Fs → Bytes → Fs × Bool)
   | cons x rest ih =>
     intro fs hnames hok hpp hg
     obtain ⟨n, e⟩ := x
-    have hn : IsName n := hnames (n, e) (List.mem_cons_self)
-    have hrestn : ∀ y ∈ rest, IsName y.1 := fun y hy => hnames y (List.mem_cons_of_mem _ hy)
+    have hn : KName n := hnames (n, e) (List.mem_cons_self)
+    have hrestn : ∀ y ∈ rest, KName y.1 := fun y hy => hnames y (List.mem_cons_of_mem _ hy)
     have hcp := plainParent_child fs dir d n hpp hg hn
     -- one step: fs1 differs from fs only inside d ++ [n]
     have step : ∀ fs1 : Fs, Frame (d ++ [n]) fs fs1 →
@@ -832,7 +832,7 @@ theorem unlinkEntries_succeeds (rec : Fs → Bytes → Fs × Bool) (dir : Bytes)
     (bound : Fs → CPath → Prop) (hbsub : ∀ fs fs' c, Sub fs' fs → bound fs c → bound fs' c)
     (hsucc : ∀ fs path c, WF fs → PlainParent fs path c → fs.get c = some .dir → bound fs c → (rec fs path).2 = true) :
     ∀ (ents : List (Name × Entry)) (fs : Fs), WF fs → PlainParent fs dir d → fs.get d = some .dir →
-      (∀ x ∈ ents, IsName x.1) → List.Pairwise (fun a b : Name × Entry => a.1 ≠ b.1) ents →
+      (∀ x ∈ ents, KName x.1) → List.Pairwise (fun a b : Name × Entry => a.1 ≠ b.1) ents →
       (∀ x ∈ ents, fs.get (d ++ [x.1]) = some x.2) → (∀ x ∈ ents, bound fs (d ++ [x.1])) →
       (unlinkEntries rec (dir ++ [47]) fs ents).2 = true ∧
       ∀ x ∈ ents, (unlinkEntries rec (dir ++ [47]) fs ents).1.get (d ++ [x.1]) = none := by
@@ -842,7 +842,7 @@ theorem unlinkEntries_succeeds (rec : Fs → Bytes → Fs × Bool) (dir : Bytes)
   | cons x rest ih =>
     intro fs hwf hpp hg hnames hpw hpres hbound
     obtain ⟨n, e⟩ := x
-    have hn : IsName n := hnames (n, e) (List.mem_cons_self)
+    have hn : KName n := hnames (n, e) (List.mem_cons_self)
     have hcp := plainParent_child fs dir d n hpp hg hn
     have hge : fs.get (d ++ [n]) = some e := hpres (n, e) (List.mem_cons_self)
     rw [List.pairwise_cons] at hpw
